@@ -532,6 +532,17 @@ func runStoreHistory(r *rand.Rand, o storeHistOpts, t *Trace) *Case {
 				s = s.WithK(k + 5)
 			}
 			s = s.WithK(k)
+			thr := float32(0)
+			if r.Intn(6) == 0 {
+				thr = []float32{0.5, 1, 2.5, 6}[r.Intn(4)]
+				t.Stat("store.search_with_threshold")
+			}
+			if thr != 0 || decoy() {
+				if decoy() || thr == 0 {
+					s = s.WithThreshold(thr + 1.5) // then set to the real value -- or lifted again with 0
+				}
+				s = s.WithThreshold(thr)
+			}
 			cutoff := -1
 			if r.Intn(5) == 0 {
 				// autocut is applied by every source to its own hits; the merged list is cut at k only
@@ -623,7 +634,7 @@ func runStoreHistory(r *rand.Rand, o storeHistOpts, t *Trace) *Case {
 						encFilter(c, f)
 					}
 				}
-				c.N(k).F32(0).N(0).N(cutoff).N(nprobes).N(fk).F64(1).F64(1).F64(60)
+				c.N(k).F32(thr).N(0).N(cutoff).N(nprobes).N(fk).F64(1).F64(1).F64(60)
 				encLn(c, lnT)
 				c.N(code).N(len(res))
 				for _, x := range res {
